@@ -283,22 +283,22 @@ theorem siteParams_pin : Gen.MpscSites.siteParams = [("NewMPSC_c0", ["initialCap
   ("nextArrayOffset_r0", ["mask"]),
   ("modifiedCalcElementOffset_r0", ["index", "mask"])] := by rfl
 
-theorem shape_pin : Gen.MpscSites.shape = [("newBuffer", [0, 0, 0, 1]),
-  ("NewMPSC", [3, 0, 6, 1]),
-  ("MPSC_getNextBufferSize", [1, 0, 3, 1]),
-  ("MPSC_getCurrentBufferCapacity", [1, 0, 0, 2]),
-  ("MPSC_availableInQueue", [0, 0, 0, 1]),
-  ("MPSC_capacity", [0, 0, 0, 1]),
-  ("MPSC_TryPush", [3, 0, 6, 3]),
-  ("MPSC_pushSlowPath", [4, 0, 6, 1]),
-  ("MPSC_TryPop", [4, 0, 8, 3]),
-  ("MPSC_Size", [2, 0, 4, 2]),
-  ("MPSC_IsEmpty", [0, 0, 0, 1]),
-  ("MPSC_getNextBuffer", [1, 0, 2, 1]),
-  ("MPSC_newBufferTryPush", [1, 0, 2, 1]),
-  ("MPSC_newBufferAndOffset", [0, 0, 1, 1]),
-  ("MPSC_resize", [1, 0, 7, 0]),
-  ("nextArrayOffset", [0, 0, 0, 1]),
-  ("modifiedCalcElementOffset", [0, 0, 0, 1])] := by rfl
+theorem shape_pin : Gen.MpscSites.shape = [("newBuffer", [0, 0, 0, 1, 0]),
+  ("NewMPSC", [3, 0, 6, 1, 0]),
+  ("MPSC_getNextBufferSize", [1, 0, 3, 1, 0]),
+  ("MPSC_getCurrentBufferCapacity", [1, 0, 0, 2, 0]),
+  ("MPSC_availableInQueue", [0, 0, 0, 1, 0]),
+  ("MPSC_capacity", [0, 0, 0, 1, 0]),
+  ("MPSC_TryPush", [3, 0, 6, 3, 0]),
+  ("MPSC_pushSlowPath", [4, 0, 6, 1, 0]),
+  ("MPSC_TryPop", [4, 0, 8, 3, 0]),
+  ("MPSC_Size", [2, 0, 4, 2, 0]),
+  ("MPSC_IsEmpty", [0, 0, 0, 1, 0]),
+  ("MPSC_getNextBuffer", [1, 0, 2, 1, 0]),
+  ("MPSC_newBufferTryPush", [1, 0, 2, 1, 0]),
+  ("MPSC_newBufferAndOffset", [0, 0, 1, 1, 0]),
+  ("MPSC_resize", [1, 0, 7, 0, 0]),
+  ("nextArrayOffset", [0, 0, 0, 1, 0]),
+  ("modifiedCalcElementOffset", [0, 0, 0, 1, 0])] := by rfl
 
 end OtterVerif.Pin.MpscSites
